@@ -435,7 +435,7 @@ func (m *Memory) FindLatest(
 	return m.Match(ctx, func(
 		now *am.TimeIndex, machBuck *bbolt.Bucket) []*amhist.MemoryRecord {
 
-		mTimeIdxs := mach.Index(s.MTimeStates)
+		mTimeIdxs := m.Index(s.MTimeStates)
 		b := machBuck.Bucket([]byte(BuckTimes))
 		var ret []*amhist.MemoryRecord
 
